@@ -112,3 +112,24 @@ impl Hasher for TableHasherState {
         self.n_writes += 1;
     }
 }
+
+/// Hasher for `HashIterBuilder` users (Bloom, CountMinSketch): element payload
+/// `k = h1 + m*h2 + m*m*variant`; `(iv=0,k) -> h1`, `(iv=1,k) -> h2` (variant 1 adds a large
+/// multiple of m to both raw values), `(iv=i+2, no payload) -> f[i]`.
+pub fn double_hasher(m: usize, f: Vec<u64>) -> TableHasher {
+    let m = m as u64;
+    let id = 0xD0B1 ^ f.iter().fold(m, |a, &x| a.wrapping_mul(131).wrapping_add(x));
+    TableHasher::new(id, move |ev: Ev| match (ev.iv, ev.key) {
+        (Some(i), Some(k)) if i <= 1 => {
+            let h = if i == 0 { k % m } else { (k / m) % m };
+            let variant = k / (m * m);
+            if variant == 0 {
+                h
+            } else {
+                h + ((1u64 << 63) / m) * m
+            }
+        }
+        (Some(i), None) if i >= 2 => f.get((i - 2) as usize).copied().unwrap_or(0),
+        other => panic!("double hasher: unexpected hashing pattern {:?}", other),
+    })
+}
